@@ -557,6 +557,33 @@ let run_refparse (payload : string) : string =
         | Some ds2 -> ds2 = ds | None -> false in
       Printf.sprintf "toks_ok=%b parsed=true wf=%b roundtrip=%b\t%s" ok (RefParser.wf_module ds) reparsed (escape_bytes (List.map (fun c -> n_of_int (Char.code c)) (List.of_seq (String.to_seq (Buffer.contents b)))))
 
+(* ---- C07: the typing gate -------------------------------------------------------- *)
+let vtype_of (s : sexp) : Resolve.vtype =
+  match s with
+  | A "ptr" -> Resolve.VPointer (n_of_int 1)
+  | A "other" -> Resolve.VOther (n_of_int 1)
+  | A p -> Resolve.VPrim (prim_of_string p)
+  | _ -> failwith "vtype"
+let rec texpr_of (s : sexp) : Resolve.texpr =
+  match s with
+  | L [A "v"; t] -> Resolve.TLeaf (Resolve.LDeref, Some (Resolve.ROk (vtype_of t)))
+  | L [A "untyped"] -> Resolve.TLeaf (Resolve.LInteger, None)
+  | L [A "bin"; A op; l; r] -> Resolve.TBinary ((if op = ".." then IR.AdvancePointer else binop_of_string op), texpr_of l, texpr_of r)
+  | L [A "un"; A op; e] -> Resolve.TUnary (unop_of_string op, texpr_of e)
+  | L [A "paren"; e] -> Resolve.TParen (texpr_of e)
+  | L [A "cast"; e; t] -> Resolve.TTypeCast (texpr_of e, vtype_of t)
+  | _ -> failwith "texpr"
+let run_resolve (x : sexp) : string =
+  let show = function Resolve.Ok _ -> "ok" | Resolve.Err es -> "err " ^ codes_to_string es in
+  match x with
+  | L [A "expr"; e] -> show (Resolve.resolve_expr (texpr_of e))
+  | L [A "cmp"; A op; l; r] ->
+      (match Resolve.resolve_cmp (Resolve.TCmp (cmpop_of_string op, texpr_of l, texpr_of r)) with
+       | Resolve.Ok _ -> "ok" | Resolve.Err es -> "err " ^ codes_to_string es)
+  | L [A "call"; L ps; L args] ->
+      (match Resolve.check_call (List.map vtype_of ps) (List.map vtype_of args) with [] -> "ok" | es -> "err " ^ codes_to_string es)
+  | _ -> failwith "resolve"
+
 let dispatch (stream : string) (x : sexp) : string =
   match stream with
   | "labels" -> run_labels x
@@ -569,6 +596,7 @@ let dispatch (stream : string) (x : sexp) : string =
   | "literal" -> run_literal x
   | "linkage" -> run_linkage x
   | "cli" -> run_cli x
+  | "resolve" -> run_resolve x
   | "lex-alpha" -> run_lex_alpha x
   | "lex-delta" -> run_lex_delta x
   | "tables" -> run_tables (match x with A n -> int_of_string n | _ -> 64)
